@@ -342,7 +342,7 @@ def gen_graph(rng, nenv, depth=2, merge_false=5, keys=KEYS, valgen=None):
     for i in range(nenv):
         imports = []
         if i > 0:
-            for _ in range(rng.below(min(i, 3) + 1)):
+            for _ in range(rng.below(min(i, 4) + 1)):
                 imports.append(("e%d" % rng.below(i), not rng.chance(1, merge_false)))
         envs["e%d" % i] = {"imports": imports, "values": valgen(rng, i)}
     return envs
